@@ -940,6 +940,15 @@ class Interp(StrOps, AbsOps, Methods):
             return a / (2 ** b)
         if t is ast.BitAnd and isinstance(b, int) and b >= 0 and (b & (b + 1)) == 0:
             return a % (b + 1)
+        if t is ast.BitAnd and (isinstance(a, int) or isinstance(b, int)):
+            # a concrete non-negative mask: bit k of an integer x (two's complement, any sign) is floor(x / 2**k) mod 2
+            x_, c_ = (b, a) if isinstance(a, int) else (a, b)
+            if not isinstance(c_, bool) and 0 <= c_ < (1 << 64):
+                r = 0
+                for k in range(c_.bit_length()):
+                    if (c_ >> k) & 1:
+                        r = r + ((x_ / (2 ** k)) % 2) * (2 ** k)
+                return r
         raise Unsupported('binop %s on symbolic ints' % t.__name__)
 
     def date_sub(self, a, b):
